@@ -72,7 +72,7 @@ def f7():
     from genjax.adev import expectation
     e = expectation(lambda x: jnp.sum(x.T @ x))
     v = e.estimate(jnp.ones((2, 3)))
-    return abs(float(v) - 6.0) < 1e-5, f"value {float(v)}"
+    return abs(float(v) - 18.0) < 1e-5, f"value {float(v)} (= sum of the 3x3 matrix of 2s)"
 attempt("F7 estimate works for array arguments", f7)
 
 # F8: enum-parallel primitives
